@@ -59,12 +59,30 @@ class C07(Check):
     def budget(self, tier):
         return 150.0 if tier == "quick" else 1500.0
 
+    LEN_CONFIGS = [(r, c) for r in ("R12", "R34", "R1") for c in (False, True)]
+
     def arms(self, tier):
-        return [("session", 1600 if tier == "quick" else 24000)]
+        # lengths: every payload length 0..1500 (capped where 127 blocks are exceeded) x rate x confirmation, one transmission per run;
+        # quick takes every 12th length (offset chosen by the seed), thorough all of them
+        nlen = 6 * 1501
+        return [("session", 1600 if tier == "quick" else 24000), ("lengths", nlen // 12 if tier == "quick" else nlen)]
 
     def generate(self, arm, index, streams, tier):
         air._imports()
         w, k, s = streams["work"], streams["knobs"], streams["sched"]
+        if arm == "lengths":
+            if tier == "quick":
+                index = index * 12 + streams.verif_seed % 12
+            rate, conf = self.LEN_CONFIGS[index % 6]
+            n = index // 6
+            opb, olb = air.TAB[(rate, conf)]
+            n = min(n, 126 * opb + olb)
+            cc = w.randrange(16)
+            bursts, meta = air.generated_data_tx(w, rate, conf, n, w.choice([0, 1, 2, 3, 16]), cc,
+                                                 w.choice([air.SAPIdentifier.ShortData, air.SAPIdentifier.UDP_IP_compression, air.SAPIdentifier.IP_PacketData]),
+                                                 w.choice(["random", "zero", "ff", "counter"]), dst=77)
+            return {"knobs": {"terminals": [77], "entropy_seed": k.getrandbits(32), "second_observer": False},
+                    "ops": [{"kind": "data", "term": 77, "ts": w.choice([1, 2]), "bursts": [[b.hex(), bt, tag] for b, bt, tag in bursts], "meta": meta}], "schedule": []}
         terms = [77] if k.random() < 0.6 else [77, 1234]
         ntx = k.choice([1, 2, 3, 4, 5, 6, 8, 10])
         p_voice = k.choice([0.0, 0.2, 0.4])
